@@ -1,0 +1,144 @@
+//! Verification hooks for `update.rs` (compiled only with `--cfg scylla_verif`).
+//!
+//! Drives the `MetadataUpdate::merge_*` constructors on a slot with plain data and projects
+//! the result to an observable summary. Contains no driver logic of its own.
+
+use super::*;
+use crate::cluster::node::NodeAddr;
+use crate::routing::Token;
+
+fn peers_for(tag: u64) -> Vec<Peer> {
+    vec![Peer {
+        host_id: Uuid::from_u128(tag as u128),
+        address: NodeAddr::Translatable(SocketAddr::from(([127, 0, 0, 1], 9042))),
+        tokens: vec![Token::new(tag as i64)],
+        datacenter: None,
+        rack: None,
+    }]
+}
+
+fn tag_of(peers: &[Peer]) -> u64 {
+    peers
+        .first()
+        .map(|p| p.host_id.as_u128() as u64)
+        .unwrap_or(0)
+}
+
+/// Observable projection of a slot.
+#[derive(Debug, PartialEq, Eq)]
+pub struct SlotView {
+    /// "none" | "full" | "partial"
+    pub kind: &'static str,
+    /// Tag of the topology (peer list) the slot carries, if any.
+    pub peers_tag: Option<u64>,
+    /// Ids of the refresh requests whose reply channels the slot holds, in order.
+    pub refresh_ids: Vec<u64>,
+    /// `(addr id, is_up)` hints sorted by addr id.
+    pub hints: Vec<(u16, bool)>,
+}
+
+pub struct UpdateSlot {
+    slot: Option<MetadataUpdate>,
+    receivers: Vec<(u64, oneshot::Receiver<Result<(), MetadataError>>)>,
+    next_refresh: u64,
+}
+
+impl UpdateSlot {
+    #[expect(clippy::new_without_default)]
+    pub fn new() -> Self {
+        Self {
+            slot: None,
+            receivers: Vec::new(),
+            next_refresh: 0,
+        }
+    }
+
+    /// `merge_metadata` with a full metadata carrying topology `tag`; returns the id of the
+    /// refresh request attached, if `with_refresh`.
+    pub fn merge_metadata(&mut self, tag: u64, with_refresh: bool) -> Option<u64> {
+        let (chan, id) = if with_refresh {
+            let (tx, rx) = oneshot::channel();
+            let id = self.next_refresh;
+            self.next_refresh += 1;
+            self.receivers.push((id, rx));
+            (Some(tx), Some(id))
+        } else {
+            (None, None)
+        };
+        let metadata = Metadata {
+            peers: peers_for(tag),
+            keyspaces: HashMap::new(),
+            cluster_name: None,
+            client_routes: None,
+        };
+        MetadataUpdate::merge_metadata(&mut self.slot, metadata, chan);
+        id
+    }
+
+    pub fn merge_topology(&mut self, tag: u64) {
+        MetadataUpdate::merge_topology_update(&mut self.slot, peers_for(tag));
+    }
+
+    pub fn merge_hint(&mut self, addr_id: u16, up: bool) {
+        let addr = SocketAddr::from(([127, 0, 0, 1], addr_id));
+        if up {
+            MetadataUpdate::merge_up_hint(&mut self.slot, addr)
+        } else {
+            MetadataUpdate::merge_down_hint(&mut self.slot, addr)
+        }
+    }
+
+    /// Takes the slot (as the channel receiver would), answers every refresh reply channel it
+    /// holds with `Ok(())`, and reports what it contained. Refresh ids are recovered from which
+    /// receivers got an answer; receivers whose sender was dropped unanswered are reported in
+    /// `lost`.
+    pub fn take(&mut self) -> (SlotView, Vec<u64>) {
+        let taken = self.slot.take();
+        let mut view = SlotView {
+            kind: "none",
+            peers_tag: None,
+            refresh_ids: Vec::new(),
+            hints: Vec::new(),
+        };
+        let mut answered_count = 0usize;
+        if let Some(update) = taken {
+            let mut hints: Vec<(u16, bool)> = update
+                .status_hints
+                .iter()
+                .map(|(a, h)| (a.port(), *h == StatusHint::Up))
+                .collect();
+            hints.sort_unstable();
+            view.hints = hints;
+            match update.metadata_changes {
+                None => {}
+                Some(MetadataChanges::Full {
+                    metadata,
+                    refresh_responses,
+                }) => {
+                    view.kind = "full";
+                    view.peers_tag = Some(tag_of(&metadata.peers));
+                    for ch in refresh_responses {
+                        answered_count += 1;
+                        let _ = ch.send(Ok(()));
+                    }
+                }
+                Some(MetadataChanges::Partial(p)) => {
+                    view.kind = "partial";
+                    view.peers_tag = p.peers.as_deref().map(tag_of);
+                }
+            }
+        }
+        let mut lost = Vec::new();
+        let mut remaining = Vec::new();
+        for (id, mut rx) in std::mem::take(&mut self.receivers) {
+            match rx.try_recv() {
+                Ok(_) => view.refresh_ids.push(id),
+                Err(oneshot::error::TryRecvError::Closed) => lost.push(id),
+                Err(oneshot::error::TryRecvError::Empty) => remaining.push((id, rx)),
+            }
+        }
+        self.receivers = remaining;
+        debug_assert_eq!(answered_count, view.refresh_ids.len());
+        (view, lost)
+    }
+}
